@@ -270,7 +270,8 @@ func (ms *monitorState) monitor(t *rapid.T, ev *world.Event) {
 						ev.Kind, time.Duration(ev.At-last), x.id, x.created, iv, callsString(calls))
 				}
 				ms.free++
-			} else if isLatestValid(w, pol, xr, now) {
+			} else if (ev.Kind == "decrypt" && !xr.Rec.Revoked) || isLatestValid(w, pol, xr, now) {
+				// (a decrypt re-reads the record's own key whether or not a newer generation exists)
 				// (c) first use after the interval: one read of the IK row, SK row and KMS at most once, no writes
 				ikReads, skReads, kms, writes := 0, 0, 0, 0
 				for _, c := range calls {
